@@ -150,6 +150,12 @@ impl Observer {
         self.node.cc.verif_process_message(m);
     }
 
+    /// Lets `ms` milliseconds pass (for schedules that need a span outside the event alphabet).
+    pub fn advance_raw(&mut self, ms: u64) {
+        crate::clock::advance(Duration::from_millis(ms));
+        self.now += ms;
+    }
+
     /// Applies one event. For Eval returns Some(live?) plus Some(violation) if an oracle fails.
     pub fn step(&mut self, ev: Ev) -> (Option<bool>, Option<(&'static str, String, String)>) {
         match ev {
@@ -462,8 +468,11 @@ fn steady_ab(base: &FdCfg, arrivals: u64) -> (Tally, Vec<Viol>) {
     // returning member: the window is filled (and wrapped) by a first life, the member is found dead
     // after a long silence, then resumes steady heartbeats: once two fresh values arrived after the
     // return (the first one only restarts the clock) every evaluation must say live again
-    for pat in patterns.clone() {
+    // `late` = the member comes back in the second half of a finite dead-node grace period (it is
+    // then scheduled for deletion: excluded from what the node sends, but its heartbeats still count)
+    for (pat, late) in patterns.iter().cloned().flat_map(|p| [(p.clone(), false), (p, true)]) {
         tally.inc("schedules");
+        let cfg = if late { FdCfg { grace_ms: 4 * cfg.bound_ms(), ..cfg } } else { cfg };
         let mut o = Observer::new(cfg);
         let mut evals = 0u64;
         let mut bad = None;
@@ -480,6 +489,14 @@ fn steady_ab(base: &FdCfg, arrivals: u64) -> (Tally, Vec<Viol>) {
             }
             o.step(Ev::AdvBoundPlus);
             o.step(Ev::Eval);
+            if late {
+                o.advance_raw(cfg.grace_ms / 2 + 1);
+                let (v1, _) = o.step(Ev::Eval);
+                if v1 != Some(false) {
+                    bad = Some(("C11", "MACHINERY: the member is not dead after the long silence".to_string(), "machinery".to_string()));
+                    return;
+                }
+            }
             let mut since_return = 0u64;
             let mut i = 0usize;
             while since_return < arrivals.min(60) {
@@ -495,13 +512,13 @@ fn steady_ab(base: &FdCfg, arrivals: u64) -> (Tally, Vec<Viol>) {
                     return;
                 }
                 if since_return >= 2 && verdict == Some(false) {
-                    bad = Some(("C11", format!("a member that returned after a silence and sends steady heartbeats every {a}/{b} ms (pattern {pat:?}) is flagged dead at its arrival {since_return} after the return (window {}, first life of {first_life} arrivals, phi_threshold {thr})", cfg.window), "returning-steady-member-flagged".into()));
+                    bad = Some(("C11", format!("a member that returned after a silence and sends steady heartbeats every {a}/{b} ms (pattern {pat:?}) is flagged dead at its arrival {since_return} after the return (window {}, first life of {first_life} arrivals, phi_threshold {thr}{})", cfg.window, if late { ", returning in the second half of the dead-node grace period" } else { "" }), "returning-steady-member-flagged".into()));
                     return;
                 }
             }
         });
         tally.add("evaluations", evals);
-        let replay = json!({"engine":"fd","kind":"steady","config":cfg.json(),"pattern":pat,"arrivals":arrivals,"returning":true});
+        let replay = json!({"engine":"fd","kind":"steady","config":cfg.json(),"pattern":pat,"arrivals":arrivals,"returning":true,"late":late});
         if let Err(p) = res {
             viols.push(Viol { prop: "C11", what: format!("panic: {p}"), sig: format!("panic:{}", short_loc(&p)), replay });
         } else if let Some((p, what, sig)) = bad {
@@ -626,7 +643,7 @@ pub fn run(property: &'static str, tier: Tier, started: Instant) -> Vec<Part> {
 
     if property == "C11" {
         let mut s = Part::new("fd/steady-arrivals");
-        s.rule = "fresh heartbeats at intervals drawn from {a, b} (every pattern of period <= 3, a = max_interval/4, b = max_interval/2), an evaluation after every interval, phi_threshold = b / min(a, initial_interval) x (1 + 1e-6), for every (window, initial, max) of the grid: from the third value on every evaluation must say live; and the returning-member variant: a first life long enough to wrap the sampling window, a silence beyond the bound (found dead), then steady heartbeats again: from the second value after the return on, every evaluation must say live".into();
+        s.rule = "fresh heartbeats at intervals drawn from {a, b} (every pattern of period <= 3, a = max_interval/4, b = max_interval/2), an evaluation after every interval, phi_threshold = b / min(a, initial_interval) x (1 + 1e-6), for every (window, initial, max) of the grid: from the third value on every evaluation must say live; and the returning-member variant: a first life long enough to wrap the sampling window, a silence beyond the bound (found dead), then steady heartbeats again: from the second value after the return on, every evaluation must say live; the same with a finite dead-node grace period G = 4 x bound and a return after more than G/2 of being dead (member scheduled for deletion)".into();
         let mut viols = vec![];
         let mut seen = std::collections::BTreeSet::new();
         for cfg in &cfgs {
